@@ -161,7 +161,7 @@ func cmdWorker(args []string) int {
 					pairs[k] = true
 				}
 				for _, v := range wo.Violations {
-					perClass[v.Class]++
+					perClass[p.Shape(v.Scenario, v.Class)]++
 				}
 			}
 		}
@@ -226,8 +226,9 @@ func cmdWorker(args []string) int {
 			wo.Samples = append(wo.Samples, sampleOf(sc))
 		}
 		for _, cl := range res.Classes() {
-			if perClass[cl] < 3 {
-				perClass[cl]++
+			shapeKey := p.Shape(sc, cl)
+			if perClass[shapeKey] < 2 && len(wo.Violations) < 60 {
+				perClass[shapeKey]++
 				d := ""
 				for _, v := range res.Violations {
 					if v.Class == cl {
